@@ -16,6 +16,7 @@
 #include <cstdlib>
 
 #include "optypes.h"
+#include "accessors.h"
 
 namespace vsim {
 
@@ -306,6 +307,7 @@ template <class G> struct Exec {
       case OP_TRANSFORM: transform_of(a, out, std::integral_constant<bool, !IsBundle::value>()); break;
       case OP_ROTATION: rotation_of(a, out, HasRotation()); break;
       case OP_COEFFS: put_e(out, a); break;
+      case OP_ACCESSORS: { Collector c(out); if (!Acc<G>::read(a, c)) out.status = 9; } break;
       case OP_DATAPTR: {
         // v[0]: the view reads the user's buffer in place; v[1]: internal sub-views sit at the documented offsets
         const void* expect = (op.ka == K_OWN) ? (const void*)st.e[op.a].data() : (const void*)st.ebuf[op.a];
@@ -379,7 +381,8 @@ template <class G> struct Exec {
         typename T::template TangentTemplate<OS> o = t.template cast<OS>();
         put_e(out, o.template cast<S>());
       } break;
-      case OP_JT_MUL: jt_mul(t, out, std::is_same<TA, T>()); break;   // J*t only instantiates for owning tangents
+      case OP_JT_MUL: jt_mul(t, out, std::is_same<TA, T>()); break;
+      case OP_T_ACCESSORS: { Collector c(out); if (!TAcc<T>::read(t, c)) out.status = 9; } break;   // J*t only instantiates for owning tangents
       case OP_T_RPLUS_X: { JJ j1(w1, b1), j2(w2, b2); put_e(out, t.rplus(st.e[op.b], j1.ref(), j2.ref())); j1.fin(out, 1); j2.fin(out, 2); } break;
       case OP_T_LPLUS_X: { JJ j1(w1, b1), j2(w2, b2); put_e(out, t.lplus(st.e[op.b], j1.ref(), j2.ref())); j1.fin(out, 1); j2.fin(out, 2); } break;
       case OP_T_PLUS_X: { JJ j1(w1, b1), j2(w2, b2); put_e(out, t.plus(st.e[op.b], j1.ref(), j2.ref())); j1.fin(out, 1); j2.fin(out, 2); } break;
@@ -487,6 +490,7 @@ template <class G> struct Exec {
         }
         put_e(out, a); break;
       case OP_M_SUBVIEW_WRITE: sub_write(a, b, op.c, out, HasAsSO3(), IsBundle()); break;
+      case OP_M_SETTERS: if (Acc<G>::set_from(a, b, op.c)) put_e(out, a); else out.status = 9; break;
       default: out.status = 9;
     }
   }
@@ -526,7 +530,7 @@ template <class G> struct Exec {
         put(out.j1, out.n1, a.coeffs());
       } break;
       case OP_M_ASSIGN: case OP_M_MULEQ: case OP_M_ASSIGN_EIGEN: case OP_M_MOVE_ASSIGN: case OP_M_COEFFWRITE:
-      case OP_M_SUBVIEW_WRITE:
+      case OP_M_SUBVIEW_WRITE: case OP_M_SETTERS:
         switch (op.kb) {
           case K_OWN: mut_ee(a, st.e[op.b], op, out); break;
           case K_MAP: { MG m(st.ebuf[op.b]); mut_ee(a, m, op, out); } break;
@@ -552,6 +556,7 @@ template <class G> struct Exec {
           else a[i] = v;
         }
         break;
+      case OP_TM_BLOCKSET: if (!TAcc<T>::set_from(a, b)) { out.status = 9; return; } break;
       default: out.status = 9; return;
     }
     put_e(out, a);
@@ -572,6 +577,7 @@ template <class G> struct Exec {
         put_e(out, a); break;
       case OP_TM_STREAM: stream_into(a, st.t[op.b]); put_e(out, a); break;
       case OP_TM_ASSIGN: case OP_TM_PLUSEQ: case OP_TM_MINUSEQ: case OP_TM_ASSIGN_EIGEN: case OP_TM_COEFFWRITE:
+      case OP_TM_BLOCKSET:
         switch (op.kb) {
           case K_OWN: mut_tt(a, st.t[op.b], op, out); break;
           case K_MAP: { MT m(st.tbuf[op.b]); mut_tt(a, m, op, out); } break;
